@@ -75,12 +75,27 @@ def close_sums(got, want):
             finally:
                 c.numpy_mode -= 1
             goal = sym.And_(ext_eq, sym.Implies_(rng, sym.same(fa, fb)))
-            if c.is_valid(zb(goal)):
+            if c.is_valid_full(zb(goal)):
                 c.oblige("lemma", "sum-congruence", goal)
                 for x, y in zip(ia.comps, ib.comps):
                     c.fact(x == y)
+                    c.memo.setdefault("sum_equal", []).append((x, y))
 
 
 def sum_same(got, want):
     close_sums(got, want)
     return sym.same(got, want)
+
+
+def rewrite_equal_sums(expr, target):
+    """replace, in expr, every sum constant proved equal to `target` (sum congruence) by `target`"""
+    c = cur()
+    subs = []
+    for x, y in c.memo.get("sum_equal", []):
+        if y.eq(target) and not x.eq(target):
+            subs.append((x, target))
+        elif x.eq(target) and not y.eq(target):
+            subs.append((y, target))
+    if not subs:
+        return expr
+    return z3.simplify(z3.substitute(expr, *subs))
